@@ -118,7 +118,8 @@ def run(chk):
                 obs = f"(Some {clist(buses)})"
             if must_reject and res is not None:
                 fails.append({"kind": "dbc-generated-for-unfit-message", "schema": text, "total_bits": total, "variable": has_var})
-            dcases.append(cpair(to_coq.schema(fcp), clist(to_coq.impl(i) for i in fcp.impls), obs, "[]"))
+            ref = serde_run.parse(text).unwrap()      # the model is given the schema as written, not the object the generators held
+            dcases.append(cpair(to_coq.schema(ref), clist(to_coq.impl(i) for i in ref.impls), obs, "[]"))
             # ---- the C generation command
             out = os.path.join(work, f"o{k}")
             os.makedirs(out)
@@ -136,7 +137,7 @@ def run(chk):
                 files, pout = None, "PRaise"
             fsb = clist(cpair(cstr(fn), cz(cid(c))) for fn, (c, _) in sorted(before.items()))
             fsa = clist(cpair(cstr(fn), cz(cid(c))) for fn, (c, _) in sorted(after.items()))
-            pcases.append(cpair("CanC", to_coq.ftree(fcp), pout, fsb, cres, fsa))
+            pcases.append(cpair("CanC", to_coq.ftree(ref), pout, fsb, cres, fsa))
             meta.append(text)
             chk.hist("c_command", cres)
             if must_reject and (cres == "OROk" or before != after):
